@@ -72,6 +72,15 @@ Proof.
   intros tg E. rewrite E in H2. now apply Nat.ltb_lt.
 Qed.
 
+(** a lagged row of a market sector names its source the same way as any other sector would (the
+    source text contains no bare supply/allocation name SUP_<code>); used by the semantic corollary *)
+Definition lag_secb (cc : string) (mk : string -> bool) (s : sector) : bool :=
+  negb (is_market s) ||
+  forallb (fun n => match r_kind (var_row s n) with
+                    | KLag src => String.eqb (Tp cc mk true src) (Tp cc mk false src)
+                    | _ => true
+                    end) (map fst (vars s)).
+
 Section Eval.
 Variable g : bool.
 
@@ -95,7 +104,9 @@ Definition comp_evalb (p : program) : bool :=
       forallb (fun x => Nat.ltb (fst (fst x)) ns && exo_ok (snd x)) (c_exo C) &&
       forallb (fun x => Nat.ltb (fst (fst x)) ns) (c_ic C) &&
       match build p with
-      | Ok E => if gains_prefix g p then forallb text_ok (fs_zone E) else true
+      | Ok E => if gains_prefix g p
+                then forallb (fun s => text_ok s && lag_secb (first_code p) (fun X => mem X (market_codes p)) s) (fs_zone E)
+                else true
       | Err _ => true
       end
   end.
@@ -121,7 +132,19 @@ Proof.
   destruct (construct_all p) as [C|] eqn:HC; [|discriminate]. cbv zeta in H.
   apply andb_true_iff in H as [_ H]. unfold build, build_run in H. rewrite HC in H. cbn [bind] in H, HE.
   destruct (main_run C) as [R|]; [|discriminate]. cbn [bind] in H, HE. inversion HE. subst E.
-  rewrite Hg in H. apply Forall_forall. intros s Hs. rewrite forallb_forall in H. now apply H.
+  rewrite Hg in H. apply Forall_forall. intros s Hs. rewrite forallb_forall in H. specialize (H s Hs).
+  now apply andb_true_iff in H as [H _].
+Qed.
+
+Lemma comp_evalb_lag p E : comp_evalb p = true -> build p = Ok E -> gains_prefix g p = true ->
+  Forall (fun s => lag_secb (first_code p) (fun X => mem X (market_codes p)) s = true) (fs_zone E).
+Proof.
+  unfold comp_evalb. intros H HE Hg. unfold build, build_run in HE.
+  destruct (construct_all p) as [C|] eqn:HC; [|discriminate]. cbv zeta in H.
+  apply andb_true_iff in H as [_ H]. unfold build, build_run in H. rewrite HC in H. cbn [bind] in H, HE.
+  destruct (main_run C) as [R|]; [|discriminate]. cbn [bind] in H, HE. inversion HE. subst E.
+  rewrite Hg in H. apply Forall_forall. intros s Hs. rewrite forallb_forall in H. specialize (H s Hs).
+  now apply andb_true_iff in H as [_ H].
 Qed.
 
 End Eval.
